@@ -83,7 +83,9 @@ inductive LexMode where
   | name (acc : List Nat)
 deriving Repr
 
-/-- `tokenize_cla` -/
+/-- `tokenize_cla`.  A variable name ends at whitespace, a parenthesis or a backslash (the ASCII
+lambda glyph, which can never be part of an identifier); the delimiter is then processed by the
+outer loop, so `x\y.y` lexes as `CName "x"`, `CLambda "y"`, `CName "y"`. -/
 def tokenizeClaAux (cls : CharCls) : LexMode → Nat → List Nat → Except ParseError (List CToken)
   | .top, _, [] => .ok []
   -- the inner `for` loop ends with the input: the (possibly empty, unterminated) binder is pushed
@@ -102,8 +104,12 @@ def tokenizeClaAux (cls : CharCls) : LexMode → Nat → List Nat → Except Par
     else if !first && cls.isAlnum c then tokenizeClaAux cls (.lam (name ++ [c]) false) (i + 1) cs
     else .error (.InvalidCharacter i c)
   | .name acc, i, c :: cs =>
-    -- `peek`: a delimiter ends the name and is then processed by the outer loop
-    if cls.isWs c then (CToken.CName acc :: ·) <$> tokenizeClaAux cls .top (i + 1) cs
+    -- `peek`: a delimiter ends the name and is then processed by the outer loop.
+    -- A backslash (the ASCII lambda glyph) is such a delimiter: the name ends, and the outer loop's
+    -- first arm (`'\\' | 'λ'`) starts reading a binder.  (`λ` is alphabetic and continues a name.)
+    if c == cBackslash then
+      (CToken.CName acc :: ·) <$> tokenizeClaAux cls (.lam [] true) (i + 1) cs
+    else if cls.isWs c then (CToken.CName acc :: ·) <$> tokenizeClaAux cls .top (i + 1) cs
     else if c == cLparen then
       (fun r => CToken.CName acc :: CToken.CLparen :: r) <$> tokenizeClaAux cls .top (i + 1) cs
     else if c == cRparen then
